@@ -41,7 +41,8 @@ VARIANTS = ["none", "none", "reorder-file", "key-replaced", "key-added", "key-re
             "path-renamed", "hash-of-compressed", "hash-unsorted", "msg-truncated",
             "msg-extended", "foreign-header", "missing-target", "ui-key-mismatch", "wrong-root",
             "root-not-self-signed", "hash-flipped", "foreign-platform-id", "bundled-root",
-            "one-target-signature-broken", "target-without-app-hash"]
+            "one-target-signature-broken", "target-without-app-hash",
+            "attestation-message-reshaped"]
 REQUIRED_LABELS = {t: ["plat:ledger", "plat:sgx", "accepted", "refused", "legacy", "current"] +
                    ["variant:" + v for v in sorted(set(VARIANTS))]
                    for t in ("quick", "thorough")}
@@ -203,6 +204,16 @@ def run_case(c):
             genuine = False
         if var in ("root-not-self-signed", "bundled-root"):
             labels[-1] += "-na"
+        if var == "attestation-message-reshaped":
+            # the attestation element's message still ENDS with the attestation key, but is
+            # not 'one byte + key' any more: what the format says is the key, is none
+            from vlib.certs import sign as _sign
+            el = next(e for e in doc["elements"] if e["name"] == "attestation")
+            m = bytes.fromhex(el["message"])
+            m = m[:1] + c["vbytes"][:1 + vi % 3] + m[1:]
+            el["message"] = m.hex()
+            el["signature"] = _sign(dev.device_sk, m).hex()
+            genuine = False
         if var == "target-without-app-hash":
             # one of the two targets carries no application hash (tweak) and is signed by the
             # bare attestation key: its chain verifies, but it attests to no installed
@@ -254,7 +265,8 @@ def run_case(c):
                 "name": "sgx_root", "type": "x509_pem", "signed_by": "sgx_root",
                 "message": certs.der_to_b64(certs.cert_der(foreign.root_cert))})
             genuine = False
-        elif var in ("one-target-signature-broken", "target-without-app-hash"):
+        elif var in ("one-target-signature-broken", "target-without-app-hash",
+                     "attestation-message-reshaped"):
             labels[-1] += "-na"
         root_arg = tmp("root.pem")
         with open(root_arg, "wb") as f:
